@@ -457,7 +457,9 @@ with rd_map (p : path) (fuel : nat) (cnt : N) (bs : bytes) (acc : list (bytes * 
         rd_map p f (cnt - 1) r2 ((k, v) :: acc)
   end.
 
-Definition fuel_for (bs : bytes) : nat := S (S (length bs)).
+(* every node of a value costs at most three units of fuel (value, loop step, loop exit)
+   and occupies at least one byte *)
+Definition fuel_for (bs : bytes) : nat := S (S (3 * length bs)).
 
 (* msgp.Skip / Reader.Skip: size table, then nested objects.  Fuel as above.
    Stream: with 5 or more bytes buffered, getSize is given a 5-byte window, so an
